@@ -142,7 +142,8 @@ PassBC(T, s, e) ==
         <<"C08:shrinks",               ~ok \/ e.trunc \/ (SubBox(e.out, e.in) /\ NonEmptyBox(e.out))>>,
         <<"C08:keeps-solutions",       e.trunc \/ (IF ok THEN \A x \in live : InBox(x, e.out) ELSE live = {})>>,
         <<"C01:solved-iff-ground",     ~ok \/ e.trunc \/ ((e.st = 2) <=> IsPoint(e.out))>>,
-        <<"C08:fixpoint",              \A i \in 1..Len(e.probes) : e.probes[i][2] \in {1, 2} /\
+        <<IF e.d = 1 THEN "C10:nested-fixpoint" ELSE "C08:fixpoint",
+                                       \A i \in 1..Len(e.probes) : e.probes[i][2] \in {1, 2} /\
                                           (e.probes[i][3] \/ P.props[e.probes[i][1] + 1].alg = "no_sub_cycle")>>,
         <<"C08:greatest-fixpoint",     ~gOn \/ ~ok \/ (g[1] /\ g[2] = e.out)>>,
         <<"C08:missed-inconsistency",  ~gOn \/ ok \/ ~g[1]>>,
@@ -174,7 +175,7 @@ PassShaving(T, s, e) ==
         <<"C10:stack-untouched",       \A k \in 1..(n - 1) : k <= Len(e.stack) =>
                                           (e.stack[k] = s.frames[k].box /\ e.ens[k] = s.frames[k].en)>>,
         <<"C01:solved-iff-ground",     ~ok \/ ((e.st = 2) <=> IsPoint(e.out))>>,
-        <<"C08:fixpoint",              \A i \in 1..Len(e.probes) : e.probes[i][2] \in {1, 2} /\
+        <<"C10:fixpoint",              \A i \in 1..Len(e.probes) : e.probes[i][2] \in {1, 2} /\
                                           (e.probes[i][3] \/ P.props[e.probes[i][1] + 1].alg = "no_sub_cycle")>>,
         <<"C17:stats-exact",           e.stats = s.cnt>>
       >>)
